@@ -242,7 +242,7 @@ func inputDefault(r *Rng, t *gTRef, s *sSet, depth int) string {
 	case "Float":
 		return Pick(r, []string{"1.5", "-0.25", "3", "1e3"})
 	case "String":
-		return Pick(r, []string{`"s"`, `""`, `"two words"`, `"q\"uote"`, `"é"`})
+		return Pick(r, []string{`"s"`, `""`, `"two words"`, `"q\"uote"`, `"é"`, `"\u001b[31m"`, `"a\u001fb\u0010"`, `"t\tb"`})
 	case "Boolean":
 		return Pick(r, []string{"true", "false"})
 	case "ID":
@@ -437,7 +437,20 @@ func genSet(r *Rng, o sdlOpts) *sSet {
 		qname = "RootQ"
 	}
 	q := &sDef{kind: "object", name: qname, desc: genDesc(r, o.hardDescs)}
-	q.fields = genFields("q", 2+r.Intn(3))
+	// the root operation type is an object like any other: it may implement interfaces (Relay style)
+	for _, in := range ifs {
+		if r.Chance(20) {
+			q.ifaces = append(q.ifaces, in)
+			for _, f := range s.by[in].fields {
+				cp := &sField{name: f.name, desc: genDesc(r, o.hardDescs), t: f.t}
+				for _, a := range f.args {
+					cp.args = append(cp.args, &sArg{name: a.name, t: a.t, dflt: a.dflt})
+				}
+				q.fields = append(q.fields, cp)
+			}
+		}
+	}
+	q.fields = append(q.fields, genFields("q", 2+r.Intn(3))...)
 	add(q)
 	if qname != "Query" || (o.schemaBlk && r.Chance(30)) {
 		add(&sDef{kind: "schema", name: "", roots: [][2]string{{"query", qname}}})
